@@ -379,13 +379,16 @@ pub enum C33Case {
     Snapshot { local_stratum: u8, sources: Vec<(bool /*ntp*/, u8 /*stratum*/, u32 /*id*/)>, seed: u64 },
     /// a plain NTPv4 association end to end: answers with a given stratum / reference id
     Wire { local_stratum: u8, local_ips: Vec<AddrSpec>, source_addr: AddrSpec, answers: Vec<(u8 /*stratum*/, Option<u8> /*refid = local ip i*/, u32, bool /*deliver*/)> },
+    /// an NTPv5 association end to end: the honest scripted server hands out its Bloom filter chunk by chunk
+    /// (with lost answers); `filter_kind` 1 = filter without, 2 = filter with this daemon's server id
+    WireV5 { local_stratum: u8, stratum: u8, filter_kind: u8, key_seed: u64, deliver: Vec<bool> },
 }
 
 pub struct C33;
 impl Property for C33 {
     type Case = C33Case;
     const ID: &'static str = "C33";
-    const RULE: &'static str = "(a) source snapshots with stratum 0..=17, reachable or not, source address from a pool that overlaps the local address list (v4/v6), reference id arbitrary or equal to the id of a local address, NTPv5 Bloom filter absent / without / with this daemon's server id, local stratum 1..16: acceptance implies every condition of the statement; (b) lists of used NTP/external sources: advertised stratum = primary + 1 (or the local stratum without sources), reference id = primary's id, the filter contains our id; (c) a plain association end to end: answers with stratum/reference id (incl. the id of a local address): the controller is told 'usable' only if the conditions hold for the state after that answer; non-trivial = a case where at least one rejection reason applies";
+    const RULE: &'static str = "(a) source snapshots with stratum 0..=17, reachable or not, source address from a pool that overlaps the local address list (v4/v6), reference id arbitrary or equal to the id of a local address, NTPv5 Bloom filter absent / without / with this daemon's server id, local stratum 1..16: acceptance implies every condition of the statement; (b) lists of used NTP/external sources: advertised stratum = primary + 1 (or the local stratum without sources), reference id = primary's id, the filter contains our id; (c) a plain association end to end: answers with stratum/reference id (incl. the id of a local address): the controller is told 'usable' only if the conditions hold for the state after that answer; (d) an NTPv5 association end to end with an honest scripted server whose 512-byte Bloom filter does or does not contain this daemon's id, 20..80 polls of which about one in ten stays unanswered: whenever the source is reported usable, a filter it regards as complete must be the server's and must not contain this daemon's id; non-trivial = a case where at least one rejection reason applies";
     const ASSUMPTIONS: &'static [&'static str] = &["reference ids of addresses are computed with the crate's own ReferenceId::from_ip (RFC 5905 rule)"];
     const QUICK_CASES: u32 = 200_000;
     const THOROUGH_CASES: u32 = 10_000_000;
@@ -403,6 +406,8 @@ impl Property for C33 {
                 .prop_map(|(local_stratum, sources, seed)| C33Case::Snapshot { local_stratum, sources, seed }),
             3 => (prop_oneof![2 => Just(16u8), 1 => 1u8..17], ips(), addr_strategy(), prop::collection::vec((1u8..17, prop_oneof![2 => Just(None), 1 => (0u8..4).prop_map(Some)], any::<u32>(), prop_oneof![4 => Just(true), 1 => Just(false)]), 1..12))
                 .prop_map(|(local_stratum, local_ips, source_addr, answers)| C33Case::Wire { local_stratum, local_ips, source_addr, answers }),
+            1 => (prop_oneof![3 => Just(16u8), 1 => 2u8..17], 1u8..16, prop_oneof![3 => Just(2u8), 2 => Just(1u8)], any::<u64>(), prop::collection::vec(prop_oneof![9 => Just(true), 1 => Just(false)], 20..80))
+                .prop_map(|(local_stratum, stratum, filter_kind, key_seed, deliver)| C33Case::WireV5 { local_stratum, stratum, filter_kind, key_seed, deliver }),
         ]
         .boxed()
     }
@@ -519,6 +524,7 @@ impl Property for C33 {
                         })
                         .collect(),
                     skip: vec![],
+                    server_filter_kind: 0,
                 };
                 let t = crate::rt::run_paused(crate::w_source::run_case(&case));
                 let own = t.source_own_refid;
@@ -546,6 +552,63 @@ impl Property for C33 {
                     }
                 }
                 Outcome::pass(any_reason).label("wire")
+            }
+            C33Case::WireV5 { local_stratum, stratum, filter_kind, key_seed, deliver } => {
+                let case = crate::w_source::SourceCase {
+                    nts: None,
+                    proto: 1,
+                    poll_min: 4,
+                    poll_max: 10,
+                    desired_poll: 4,
+                    local_stratum: *local_stratum,
+                    local_ips: vec![],
+                    source_addr: AddrSpec::V4(0x0A00_0001),
+                    key_seed: *key_seed,
+                    ops: deliver
+                        .iter()
+                        .flat_map(|d| {
+                            let mut v = vec![crate::w_source::Op::Timer];
+                            if *d {
+                                v.push(crate::w_source::Op::Deliver(crate::w_source::Resp::honest(*stratum)));
+                            }
+                            v
+                        })
+                        .collect(),
+                    skip: vec![],
+                    server_filter_kind: (*filter_kind).clamp(1, 2),
+                };
+                let t = crate::rt::run_paused(crate::w_source::run_case(&case));
+                let mut labels = Labels::default();
+                let mut complete_with_us = false;
+                for (si, s) in t.steps.iter().enumerate() {
+                    let usable_now = s.events.iter().any(|e| matches!(e, crate::w_source::CtlEvent::Usable(true)));
+                    match s.held_filter_is_servers {
+                        Some(true) => {
+                            labels.add("filter-transferred");
+                            if t.server_id_in_filter {
+                                complete_with_us = true;
+                                if usable_now {
+                                    return Outcome::fail(
+                                        "source-marked-usable-although/bloom-filter-contains-this-daemon",
+                                        format!("step {si}: the source holds the server's complete filter, which contains this daemon's id, and was reported usable"),
+                                    );
+                                }
+                            }
+                        }
+                        Some(false) if usable_now => {
+                            return Outcome::fail(
+                                "usable-decided-on-a-filter-the-source-never-reported",
+                                format!("step {si}: the source regards its copy of the server's Bloom filter as complete, but it differs from what the honest server sent"),
+                            );
+                        }
+                        _ => {}
+                    }
+                    labels.add_if(usable_now, "usable");
+                }
+                labels.add_if(deliver.iter().any(|d| !*d), "lost-answers");
+                let mut o = Outcome::pass(complete_with_us);
+                o.labels = labels.0;
+                o.label("wire-v5")
             }
         }
     }
